@@ -386,3 +386,150 @@ TWINS["C10"] = [
        (TD, "                td_error = r + mdp.discount_rate*sum([q[ns][na]*p for na, p in na_dist.items()]) - q[s][a]\n                q[s][a] += self.step_size*td_error",
         "                q[s][a] += self.step_size*(r + mdp.discount_rate*sum([q[ns][na]*p for na, p in na_dist.items()]) - q[s][a])")),
 ]
+
+# ----------------------------------------------------------------------------------- C01
+VI = A + "valueiteration.py"
+PI = A + "policyiteration.py"
+MUTANTS["C01"] = [
+    M("revert-F1-solve-rank", ["TEN-5"],
+      (PI, "                state_rewards[..., np.newaxis],\n            )[..., 0]", "                state_rewards,\n            )")),
+    M("revert-F19-policy-after-placeholder", ["BEL-4"],
+      (VI, """        policy_matrix = np.isclose(
+            action_values,
+            np.max(action_values, axis=-1, keepdims=True),
+        )
+        policy_matrix = policy_matrix/policy_matrix.sum(-1, keepdims=True)
+        single_action_states = mdp.action_matrix.sum(-1) == 1
+        policy_matrix[single_action_states] = mdp.action_matrix[single_action_states]
+        state_values[mdp._unable_to_reach_absorbing,] = self.undefined_value
+        action_values[mdp._unable_to_reach_absorbing,] = self.undefined_value
+""", """        state_values[mdp._unable_to_reach_absorbing,] = self.undefined_value
+        action_values[mdp._unable_to_reach_absorbing,] = self.undefined_value
+        policy_matrix = np.isclose(
+            action_values,
+            np.max(action_values, axis=-1, keepdims=True),
+        )
+        policy_matrix = policy_matrix/policy_matrix.sum(-1, keepdims=True)
+        single_action_states = mdp.action_matrix.sum(-1) == 1
+        policy_matrix[single_action_states] = mdp.action_matrix[single_action_states]
+""")),
+    M("vi-residual-not-forwarded", ["BEL-5"],
+      (VI, "            action_matrix=mdp.action_matrix.astype(bool),\n            max_residual=self.max_residual,\n", "            action_matrix=mdp.action_matrix.astype(bool),\n")),
+    M("vi-absorbing-mask-on-transitions-dropped", ["BEL-3"],
+      (VI, "        transition_matrix[mdp.absorbing_state_vec,] = 0\n", "")),
+    M("vi-unable-mask-on-rewards-dropped", ["BEL-3"],
+      (VI, "        state_action_reward_matrix[mdp._unable_to_reach_absorbing,] = 0\n", "")),
+    M("vi-mask-on-successor-axis", ["TEN-3", "BEL-3"],
+      (VI, "        transition_matrix[mdp.absorbing_state_vec,] = 0\n", "        transition_matrix[:, :, mdp.absorbing_state_vec] = 0\n")),
+    M("vi-discount-on-reward", ["BEL-2"],
+      (VI, "            state_action_reward_matrix +\\\n            discount_rate*future_action_values +\\\n            action_penalty", "            discount_rate*(state_action_reward_matrix + future_action_values) +\\\n            action_penalty")),
+    M("vi-no-discount", ["BEL-2", "BEL-1"],
+      (VI, "            discount_rate*future_action_values +\\\n", "            future_action_values +\\\n")),
+    M("vi-einsum-transposed", ["TEN-2", "TEN-1"],
+      (VI, 'np.einsum("san,n->sa", transition_matrix, state_values)', 'np.einsum("nas,n->sa", transition_matrix, state_values)')),
+    M("vi-default-rtol", ["BEL-5"],
+      (VI, "if np.isclose(state_values, next_state_values, atol=max_residual, rtol=0).all():", "if np.isclose(state_values, next_state_values, atol=max_residual).all():")),
+    M("vi-stop-any", ["BEL-5"],
+      (VI, "if np.isclose(state_values, next_state_values, atol=max_residual, rtol=0).all():", "if np.isclose(state_values, next_state_values, atol=max_residual, rtol=0).any():")),
+    M("vi-penalty-dropped", ["BEL-4", "BEL-1"],
+      (VI, "            discount_rate*future_action_values +\\\n            action_penalty", "            discount_rate*future_action_values")),
+    M("vi-policy-argmax-onehot", ["BEL-4"],
+      (VI, """        policy_matrix = np.isclose(
+            action_values,
+            np.max(action_values, axis=-1, keepdims=True),
+        )
+        policy_matrix = policy_matrix/policy_matrix.sum(-1, keepdims=True)""", """        policy_matrix = np.eye(action_values.shape[-1])[np.argmax(action_values, axis=-1)]""")),
+    M("vi-placeholder-missing-on-values", ["BEL-3"],
+      (VI, "        state_values[mdp._unable_to_reach_absorbing,] = self.undefined_value\n        action_values", "        action_values")),
+    M("vi-initial-value-from-raw", ["BEL-6"],
+      (VI, """            converged=iterations < (self.max_iterations - 1),
+            initial_value=sum([state_values[s]*p for s, p in mdp.initial_state_dist().items()]),
+            policy=policy
+        )
+    
+    def _dict_plan_on""", """            converged=iterations < (self.max_iterations - 1),
+            initial_value=float(raw_values.dot(mdp.initial_state_vec)),
+            policy=policy
+        )
+    
+    def _dict_plan_on"""),
+      (VI, "        state_values[mdp._unable_to_reach_absorbing,] = self.undefined_value\n        action_values", "        raw_values = state_values.copy()\n        state_values[mdp._unable_to_reach_absorbing,] = self.undefined_value\n        action_values")),
+    M("vi-converged-constant", ["BEL-5"],
+      (VI, """            converged=iterations < (self.max_iterations - 1),
+            initial_value=sum([state_values[s]*p for s, p in mdp.initial_state_dist().items()]),
+            policy=policy
+        )
+    
+    def _dict_plan_on""", """            converged=True,
+            initial_value=sum([state_values[s]*p for s, p in mdp.initial_state_dist().items()]),
+            policy=policy
+        )
+    
+    def _dict_plan_on""")),
+    M("vi-table-axes-swapped", ["TEN-3"],
+      (VI, """        action_values=StateActionTable.from_state_action_lists(
+            state_list=mdp.state_list,
+            action_list=mdp.action_list,
+            data=action_values
+        )
+        return ValueIterationResult(
+            iterations=iterations,
+            state_value=state_values,
+            action_value=action_values,
+            converged=iterations < (self.max_iterations - 1),""", """        action_values=StateActionTable.from_state_action_lists(
+            state_list=mdp.state_list,
+            action_list=mdp.action_list,
+            data=action_values.T
+        )
+        return ValueIterationResult(
+            iterations=iterations,
+            state_value=state_values,
+            action_value=action_values,
+            converged=iterations < (self.max_iterations - 1),""")),
+    M("dict-no-absorbing-guard", ["DICT-2"],
+      (VI, "                if mdp.is_absorbing(s) or mdp._unable_to_reach_absorbing[si]:\n                    continue\n", "                if mdp._unable_to_reach_absorbing[si]:\n                    continue\n")),
+    M("dict-discount-on-both", ["DICT-1"],
+      (VI, "action_values[s][a] += prob*(mdp.reward(s, a, ns) + mdp.discount_rate*state_values[ns])", "action_values[s][a] += prob*mdp.discount_rate*(mdp.reward(s, a, ns) + state_values[ns])")),
+    M("dict-reward-args", ["DICT-1", "ARG"],
+      (VI, "action_values[s][a] += prob*(mdp.reward(s, a, ns) + mdp.discount_rate*state_values[ns])", "action_values[s][a] += prob*(mdp.reward(ns, a, s) + mdp.discount_rate*state_values[ns])")),
+    M("dict-residual-le", ["DICT-4"],
+      (VI, "        if residual < max_residual:\n            break\n    return state_values, action_values, i", "        if residual < max_residual*10:\n            break\n    return state_values, action_values, i")),
+    M("dict-residual-not-forwarded", ["DICT-5"],
+      (VI, "            mdp,\n            max_residual=self.max_residual,\n", "            mdp,\n")),
+    M("pi-discount-twice", ["BEL-2"],
+      (PI, '            "b,bsan,bn->bsa",\n            discount_rate,\n            transition_matrix,\n            state_values,', '            "b,b,bsan,bn->bsa",\n            discount_rate,\n            discount_rate,\n            transition_matrix,\n            state_values,')),
+    M("pi-system-no-discount", ["BEL-2"],
+      (PI, '            "bsan,bsa,b->bsn",\n            transition_matrix,\n            policy_matrix,\n            discount_rate,\n', '            "bsan,bsa->bsn",\n            transition_matrix,\n            policy_matrix,\n')),
+    M("pi-absorbing-mask-dropped", ["BEL-3"],
+      (PI, "            transition_matrix[mdp.absorbing_state_vec,] = 0\n", "")),
+    M("pi-penalty-store-dropped", ["BEL-4"],
+      (PI, "        action_values[~action_matrix] = float('-inf')\n", "")),
+    M("pi-placeholder-dropped", ["BEL-3"],
+      (PI, "            action_values[mdp._unable_to_reach_absorbing,] = self.undefined_value\n", "")),
+    M("pi-stop-on-values", ["BEL-5"],
+      (PI, "        if np.isclose(new_policy, policy_matrix).all():\n            break\n", "")),
+]
+TWINS["C01"] = [
+    TW("vi-gamma-inside-einsum",
+       (VI, """            np.einsum("san,n->sa", transition_matrix, state_values)
+        action_values = \\
+            state_action_reward_matrix +\\
+            discount_rate*future_action_values +\\
+            action_penalty""", """            np.einsum("san,n->sa", discount_rate*transition_matrix, state_values)
+        action_values = \\
+            state_action_reward_matrix +\\
+            future_action_values +\\
+            action_penalty""")),
+    TW("vi-mask-order-swapped",
+       (VI, "        transition_matrix[mdp._unable_to_reach_absorbing,] = 0\n        transition_matrix[mdp.absorbing_state_vec,] = 0\n",
+        "        transition_matrix[mdp.absorbing_state_vec,] = 0\n        transition_matrix[mdp._unable_to_reach_absorbing,] = 0\n")),
+    TW("vi-rename-locals",
+       (VI, "        next_state_values = np.max(action_values, axis=-1)\n        if np.isclose(state_values, next_state_values, atol=max_residual, rtol=0).all():\n            break\n        state_values = next_state_values",
+        "        new_values = np.max(action_values, axis=-1)\n        if np.isclose(state_values, new_values, atol=max_residual, rtol=0).all():\n            break\n        state_values = new_values")),
+    TW("vi-mask-with-slice",
+       (VI, "        transition_matrix[mdp.absorbing_state_vec,] = 0\n", "        transition_matrix[mdp.absorbing_state_vec, :, :] = 0\n")),
+    TW("dict-factor-order",
+       (VI, "action_values[s][a] += prob*(mdp.reward(s, a, ns) + mdp.discount_rate*state_values[ns])", "action_values[s][a] += (mdp.discount_rate*state_values[ns] + mdp.reward(s, a, ns))*prob")),
+    TW("pi-letters-renamed",
+       (PI, '"bsan,bsa,b->bsn"', '"bxaz,bxa,b->bxz"')),
+]
